@@ -112,3 +112,17 @@ func init() {
 		}
 	}})
 }
+
+func init() {
+	register(&Property{ID: "DBGW", Patterns: []string{"./..."}, Run: func(p *Program, r *Report) {
+		r.Rule("W", "E3", 0, "use after wipe (debug)")
+		for fn, idx := range p.wipers() {
+			r.Note("wiper %s %v", fnName(fn), idx)
+		}
+		for _, fn := range p.srcFns {
+			p.useAfterWipe(fn, func(s wipeSite, ok bool, d string) {
+				r.Check(ok, "W", fnName(fn), "buffer handed to "+s.Callee.Name(), p.Pos(s.Call.Pos()), "not used afterwards", d)
+			})
+		}
+	}})
+}
